@@ -404,10 +404,13 @@ impl Sim {
     self.finish(json!({"k":"maint","h":Self::h(a)}), v);
   }
 
-  /// run_maintenance until the reported metrics and the content stop changing
+  /// run_maintenance until the reported metrics and the content stop changing.  While the reported
+  /// cost is still above the capacity a user keeps calling (a pass may spend itself on keys the
+  /// policy still tracks although they left the map, which changes no metric); the number of
+  /// calls is bounded by the writes since the last quiescence.
   fn quiet(&mut self) {
     let min_calls = self.writes_since_quiet / 16 + 2;
-    let max_calls = min_calls + 12;
+    let max_calls = min_calls + 12 + self.writes_since_quiet.min(48);
     let mut calls = 0;
     let mut stable = 0;
     let mut last = String::new();
@@ -423,7 +426,8 @@ impl Sim {
         stable = 0;
       }
       last = sig;
-      if calls >= min_calls && stable >= 2 {
+      let over = self.cfg.cap > 0 && m.current_cost > self.cfg.cap;
+      if calls >= min_calls && stable >= 2 && !over {
         break;
       }
     }
